@@ -16,9 +16,11 @@ import (
 	"github.com/tink-crypto/tink-go/v2/aead/aesgcm"
 	"github.com/tink-crypto/tink-go/v2/daead"
 	"github.com/tink-crypto/tink-go/v2/hybrid"
+	"github.com/tink-crypto/tink-go/v2/hybrid/hpke"
 	"github.com/tink-crypto/tink-go/v2/internal/primitiveregistry"
 	"github.com/tink-crypto/tink-go/v2/internal/protoserialization"
 	"github.com/tink-crypto/tink-go/v2/jwt"
+	"github.com/tink-crypto/tink-go/v2/jwt/jwtmldsa"
 	"github.com/tink-crypto/tink-go/v2/key"
 	"github.com/tink-crypto/tink-go/v2/keyderivation"
 	"github.com/tink-crypto/tink-go/v2/keyset"
@@ -26,6 +28,7 @@ import (
 	"github.com/tink-crypto/tink-go/v2/prf"
 	tinkpb "github.com/tink-crypto/tink-go/v2/proto/tink_go_proto"
 	"github.com/tink-crypto/tink-go/v2/signature"
+	"github.com/tink-crypto/tink-go/v2/signature/mldsa"
 	"github.com/tink-crypto/tink-go/v2/streamingaead"
 	"github.com/tink-crypto/tink-go/v2/verifharness/internal/detrand"
 	"github.com/tink-crypto/tink-go/v2/verifharness/internal/gen"
@@ -181,7 +184,22 @@ func checkIDs(t *rapid.T, what string, i *keys.Info, k key.Key) {
 func checkSerialization(t *rapid.T, what string, i *keys.Info, k key.Key) {
 	ks, err := protoserialization.SerializeKey(k)
 	if i.Lossy {
-		t.Fatalf("%s: Lossy is never set any more", i)
+		// only derivers whose derived parameters are JWT parameters with a custom kid: the serialization
+		// works and parses, the parsed key is not Equal (known finding C12 jwt-custom-kid-parameters-lossy)
+		if i.Type != "PrfBasedDeriver" || i.NoSerialization {
+			t.Fatalf("%s: Lossy set on something else than a serializable deriver", i)
+		}
+		if err != nil {
+			t.Fatalf("%s: %s: marked Lossy but SerializeKey fails: %v", i, what, err)
+		}
+		back, err := protoserialization.ParseKey(ks)
+		if err != nil {
+			t.Fatalf("%s: %s: marked Lossy but ParseKey fails: %v", i, what, err)
+		}
+		if back.Equal(k) {
+			t.Fatalf("%s: %s: marked Lossy but parse(serialize(key)) is Equal", i, what)
+		}
+		return
 	}
 	if i.NoSerialization {
 		if err == nil {
@@ -234,6 +252,26 @@ func checkECPoint(t *rapid.T, i *keys.Info) {
 	}
 	if len(i.Fields["x"].([]byte)) != size || len(i.Fields["y"].([]byte)) != size {
 		t.Fatalf("%s: coordinates are not fixed width", i)
+	}
+}
+
+// checkDerivedPublic: Fields["public_key"] of the post-quantum types is derived by the generator
+// (crypto/mlkem, crypto/sha3, crypto/ecdh, internal/ref/mldsaref); the Tink constructors accepted the
+// key, so the object's public bytes must be the same (a generator bug otherwise).
+func checkDerivedPublic(t *rapid.T, i *keys.Info) {
+	var got []byte
+	switch pk := i.Public.(type) {
+	case *hpke.PublicKey:
+		got = pk.PublicKeyBytes()
+	case *mldsa.PublicKey:
+		got = pk.KeyBytes()
+	case *jwtmldsa.PublicKey:
+		got = pk.KeyBytes()
+	default:
+		return
+	}
+	if want, _ := i.Fields["public_key"].([]byte); !bytes.Equal(got, want) {
+		t.Fatalf("%s: the key object's public key bytes %x differ from the generator's own derivation", i, got)
 	}
 }
 
@@ -306,6 +344,7 @@ func checkCommon(t *rapid.T, i *keys.Info) {
 		t.Fatalf("%s: class mismatch", i)
 	}
 	checkECPoint(t, i)
+	checkDerivedPublic(t, i)
 	checkSerialization(t, "key", i, i.Key)
 	checkWithVariantID(t, i)
 }
@@ -639,6 +678,26 @@ func TestStreaming(t *testing.T)    { runClass(t, keys.Streaming) }
 func TestJWTMAC(t *testing.T)       { runClass(t, keys.JWTMAC) }
 func TestJWTSignature(t *testing.T) { runClass(t, keys.JWTSignature) }
 func TestDeriver(t *testing.T)      { runClass(t, keys.Deriver) }
+
+// TestDeriverOfDerivable: DrawDeriverOfDerivable gives working derivers (keyderivation.New and
+// DeriveKeyset succeed) whatever the derived-key parameters; derived_usable is reported.
+func TestDeriverOfDerivable(t *testing.T) {
+	counts := newTally()
+	rapid.Check(t, func(rt *rapid.T) {
+		detrand.Seed(rapid.Uint64().Draw(rt, "rand_seed"))
+		i := keys.DrawDeriverOfDerivable(rt, "k", rapid.Bool().Draw(rt, "derived_usable"))
+		if !i.Usable || i.Class != keys.Deriver {
+			rt.Fatalf("DrawDeriverOfDerivable returned %s", i)
+		}
+		if _, ok := i.Fields["derived_usable"].(bool); !ok {
+			rt.Fatalf("%s: derived_usable missing", i)
+		}
+		counts.add(i)
+		checkCommon(rt, i)
+		usePrimitive(rt, i)
+	})
+	counts.log(t)
+}
 
 // TestRegistry checks the static tables: every type has a class, DrawType reaches every type.
 func TestRegistry(t *testing.T) {
